@@ -1,0 +1,20 @@
+// Copyright ©2011-2012 The bíogo Authors. All rights reserved.
+// Use of this source code is governed by a BSD-style
+// license that can be found in the LICENSE file.
+
+//go:build verif
+// +build verif
+
+package concurrent
+
+// VerifStep, when set by a verification harness, is called at the named
+// steps of the Processor workers and of the Promise methods with the
+// Processor or Promise concerned. It may block, which lets the harness
+// choose the interleaving of the goroutines involved.
+var VerifStep func(owner interface{}, site string)
+
+func vstep(owner interface{}, site string) {
+	if f := VerifStep; f != nil {
+		f(owner, site)
+	}
+}
